@@ -165,7 +165,7 @@ def tlc(module_path, cfg=None, workers=None, timeout=900, env=None, simulate=Non
             r.violation = mv.group(1)
         elif "Deadlock reached" in out:
             r.violation = "deadlock"
-        elif "Temporal properties were violated" in out:
+        elif "Temporal properties were violated" in out or re.search(r"Temporal property \S+ was violated", out):
             r.violation = "liveness"
         elif re.search(r"Action property .* is violated|action property", out, re.I):
             r.violation = "action-property"
